@@ -432,7 +432,9 @@ unsafe impl Hal for LabHal {
             h.seq += 1;
             crate::tracer::HAL_SEQ.with(|s| s.set(h.seq));
             let seq = h.seq;
-            let orig = if h.watch_writes && dir == Dir::FromDevice && len > 0 {
+            // (For device-readable buffers the same comparison shows a buffer that is rewritten
+            // while a request that names it is still with the device.)
+            let orig = if h.watch_writes && len > 0 {
                 // SAFETY: the driver promises the buffer is valid for len bytes.
                 Some(unsafe { std::slice::from_raw_parts(vaddr as *const u8, len) }.to_vec())
             } else {
@@ -478,7 +480,11 @@ unsafe impl Hal for LabHal {
                             let now = unsafe { std::slice::from_raw_parts(vaddr as *const u8, len) };
                             if now != &orig[..] {
                                 let at = now.iter().zip(orig.iter()).position(|(a, b)| a != b).unwrap_or(0);
-                                let d = format!("device-writable buffer {:#x}+{} was written by the driver while it was shared with the device (first difference at byte {}: {:#x} -> {:#x}); with in-place DMA the driver would have overwritten what the device wrote", vaddr, len, at, orig[at], now[at]);
+                                let d = if dir == Dir::ToDevice {
+                                    format!("device-readable buffer {:#x}+{} was rewritten while it was shared with the device (first difference at byte {}: {:#x} -> {:#x}); with in-place DMA a device that reads it late finds the new content", vaddr, len, at, orig[at], now[at])
+                                } else {
+                                    format!("device-writable buffer {:#x}+{} was written by the driver while it was shared with the device (first difference at byte {}: {:#x} -> {:#x}); with in-place DMA the driver would have overwritten what the device wrote", vaddr, len, at, orig[at], now[at])
+                                };
                                 h.fault("buffer-written-while-shared", d);
                             }
                         }
